@@ -122,6 +122,7 @@ fn one_call(avail: Avail) {
     assert!(mon().live == 0, "[C01.inner_gone_with_call] the inner future does not outlive the call future");
     assert!(mon().min_permits_while_live >= 1 || mon().calls == 0, "[C01.permit_outlives_inner] the permit is released only after the inner future completed or was dropped");
     assert!(mon().calls <= 1, "[C20.bulkhead_once] the request is forwarded at most once");
+    assert!(mon().unready_calls == 0, "[C20.bulkhead_ready_instance] the call goes to the instance on which readiness was observed");
     if let Some(r) = result {
         match r {
             Ok(v) => {
@@ -158,3 +159,38 @@ fn one_call(avail: Avail) {
 #[kani::stub(catch_unwind, crate::verif_kani::env::catch_unwind_stub)]
 fn one_call_any_availability() { one_call(Avail::Any) }
 
+
+/// C20 — listeners only observe: the same call with two side-effecting
+/// listeners registered resolves exactly as without them, and both listeners
+/// receive every event.
+#[kani::proof]
+#[kani::unwind(5)]
+#[kani::stub(std::time::Instant::now, tokio::model::std_instant_now)]
+#[kani::stub(catch_unwind, crate::verif_kani::env::catch_unwind_stub)]
+fn listeners_only_observe() {
+    use tower_resilience_core::{EventListeners, FnListener};
+    let mut ls: EventListeners<crate::events::BulkheadEvent> = EventListeners::new();
+    ls.add(FnListener::new(|_e: &crate::events::BulkheadEvent| { mon().events += 1; }));
+    ls.add(FnListener::new(|_e: &crate::events::BulkheadEvent| { mon().events += 0x100; }));
+    let cfg = BulkheadConfig { max_concurrent_calls: 2, max_wait_duration: None, name: String::new(), event_listeners: ls };
+    let mut script = svc::any_script();
+    script.never = false;
+    script.immediate = true;
+    let mut b = Bulkhead::new(Inner::new(script), cfg);
+    st().sem_avail = Avail::Always;
+    st().sem_reported_available = 1;
+    let req: u32 = kani::any();
+    let _ = svc::poll_ready_once(&mut b);
+    let mut fut = b.call(req);
+    let p = svc::poll_once(fut.as_mut());
+    match p {
+        Poll::Ready(Ok(v)) => assert!(script.outcomes[0] == Ok(v), "[C20.listeners_dont_change_outcome] with listeners the response is unchanged"),
+        Poll::Ready(Err(BulkheadServiceError::Inner(e))) => assert!(script.outcomes[0] == Err(e.0), "[C20.listeners_dont_change_outcome] with listeners the error is unchanged"),
+        _ => assert!(false, "[C20.listeners_dont_change_outcome] with listeners the call resolves as without them"),
+    }
+    assert!(mon().calls == 1 && mon().last_req == req, "[C20.bulkhead_forwards] forwarded unchanged, exactly once");
+    let ev = mon().events;
+    assert!(ev & 0xff == 2 && ev >> 8 == 2, "[C20.listeners_get_every_event] both listeners receive both events (permitted, finished/failed)");
+    std::mem::forget(fut);
+    std::mem::forget(b);
+}
